@@ -70,7 +70,7 @@ func genC06Case(t *rapid.T) colCase {
 
 // cfgInForce returns the decoration settings in force while op index i executes.
 func cfgInForce(c colCase, obs colObs, opIndex int) cfgSnapshot {
-	snap := cfgSnapshot{AddReason: c.Cfg.AddReason, AddSpanCount: c.Cfg.AddSpanCount, AddCounts: c.Cfg.AddCounts, AddHost: c.Cfg.AddHost, Attrs: c.Cfg.Attrs, Sampler: c.Cfg.Sampler}
+	snap := cfgSnapshot{AddReason: c.Cfg.AddReason, AddSpanCount: c.Cfg.AddSpanCount, AddCounts: c.Cfg.AddCounts, AddHost: c.Cfg.AddHost, Attrs: c.Cfg.Attrs, Sampler: c.Cfg.Sampler, DryRun: c.Cfg.DryRun}
 	for _, r := range obs.Reloads {
 		if r.OpIndex < opIndex {
 			snap = r.Snap
